@@ -212,13 +212,14 @@ impl World {
         self.record("OEvent (EvHeartbeat [(HbTx, true); (HbRx, true)])".into(), ob);
     }
 
-    /// the HEARTBEAT token after an absence of one and a half intervals (timers started with 300 ms
-    /// on first use): the Tx timer has expired, the Rx timer (two intervals) has not
+    /// the HEARTBEAT token after an absence of one and a quarter intervals (timers started with 1 s
+    /// on first use): the Tx timer has expired, the Rx timer (two intervals) has not - unless the
+    /// thread oversleeps by 650 ms
     pub fn event_heartbeat_tx(&mut self) {
         if self.dead || self.torn {
             return;
         }
-        let r = catch_unwind(AssertUnwindSafe(|| self.probe.event(ProbeEvent::Heartbeat { interval_ms: 300, away_ms: 450 })));
+        let r = catch_unwind(AssertUnwindSafe(|| self.probe.event(ProbeEvent::Heartbeat { interval_ms: 1000, away_ms: 1250 })));
         let ob = self.outcome(r);
         self.stats.push("heartbeat-tx".into());
         self.record("OEvent (EvHeartbeat [(HbTx, true)])".into(), ob);
